@@ -11,13 +11,29 @@ open LaytheVerif.Gen
 /-- An instruction together with its line. -/
 abbrev IL := Sym × Nat
 
-/-- `drop`: number of further leading `Drop`s, and the rest. -/
-def spanDrops : List IL → Nat × List IL
-  | (.Drop, _) :: r => ((spanDrops r).1 + 1, (spanDrops r).2)
-  | r => (0, r)
+/-- at most `k` further leading `Drop`s, and the rest -/
+def spanDropsK : Nat → List IL → Nat × List IL
+  | k + 1, (.Drop, _) :: r => ((spanDropsK k r).1 + 1, (spanDropsK k r).2)
+  | _, r => (0, r)
 
-theorem spanDrops_len (l : List IL) : (spanDrops l).2.length ≤ l.length := by
-  fun_induction spanDrops l <;> simp_all <;> omega
+/-- `drop`: number of further leading `Drop`s the rule merges, and the rest.  The counter is a `u8`
+that starts at 1 for the first `Drop` of the run and stops at `u8::MAX` (`while drop_count < u8::MAX
+&& peek_next() == Some(Drop)`): behind the two `Drop`s of the pattern at most 253 more are merged, a
+longer run continues with a `Drop`/`DropN` of its own. -/
+def spanDrops (r : List IL) : Nat × List IL := spanDropsK 253 r
+
+theorem spanDropsK_len (k : Nat) (l : List IL) : (spanDropsK k l).2.length ≤ l.length := by
+  fun_induction spanDropsK k l <;> simp_all <;> omega
+
+theorem spanDrops_len (l : List IL) : (spanDrops l).2.length ≤ l.length := spanDropsK_len _ l
+
+theorem spanDropsK_count (k : Nat) (l : List IL) : (spanDropsK k l).1 ≤ k := by
+  fun_induction spanDropsK k l <;> simp_all <;> omega
+
+/-- the operand of the merged instruction fits the `u8` of `DropN` -/
+theorem spanDrops_count (l : List IL) : (spanDrops l).1 + 2 ≤ 255 := by
+  have := spanDropsK_count 253 l
+  unfold spanDrops; omega
 
 /-- `load_multiple`: lines of the leading copies of `i`, and the rest. -/
 def spanEq (i : Sym) : List IL → List Nat × List IL
@@ -122,11 +138,5 @@ def wellDelimited : List IL → Bool
      | .Call (_ + 1) => x.1 == .ArgumentDelimiter
      | _ => true) && wellDelimited (y :: r)
   | _ => true
-
-/-- No run of more than 255 consecutive `Drop`s (the `u8` counter of `drop`). -/
-def dropRunsOk : List IL → Bool
-  | [] => true
-  | (.Drop, l) :: r => (spanDrops r).1 + 1 ≤ 255 && dropRunsOk r
-  | _ :: r => dropRunsOk r
 
 end LaytheVerif.Peephole
